@@ -12,7 +12,7 @@
 EXTENDS Def, Json, IOUtils
 
 ASSUME InitRegisters
-ASSUME TLCSet(5, ndJsonDeserialize(IOEnv.VERIF_TRACE))
+ASSUME TLCSet(5, Norm(ndJsonDeserialize(IOEnv.VERIF_TRACE)))
 Trace == TLCGet(5)
 
 ExactErr == {"raise", "boom"}
